@@ -551,6 +551,54 @@ class SeparatorsEarlierOnTheLine(LinesPart):
         return lines
 
 
+class EveryCodePointAsNeighbour(Part):
+    name = "every_code_point_next_to_an_address"
+    desc = ("each of the 1.1 million code points (all but ASCII letters, digits, '.', ':', LF, CR and surrogates) directly before, "
+            "after and around an IPv4 and an IPv6 address: the address is replaced by the image it has alone on a line, "
+            "the neighbour stays")
+
+    def __init__(self, tier, seed):
+        self.tier, self.seed = tier, seed
+
+    def cases(self):
+        return [{"plane": p} for p in range(17)]
+
+    def run(self, case):
+        from netconan import ip_anonymization as ipa
+
+        res = Res()
+        a4, a6 = ipa.IpAnonymizer("saltForTest"), ipa.IpV6Anonymizer("saltForTest")
+        probes = [(a4, "11.22.33.44"), (a6, "2001:db8::1")]
+        images = {t: ipa.anonymize_ip_addr(an, t) for an, t in probes}
+        lo, hi = case["plane"] << 16, (case["plane"] + 1) << 16
+        if "cp" in case:
+            lo, hi = case["cp"], case["cp"] + 1
+        n_bad = 0
+        for cp in range(lo, hi):
+            if 0xD800 <= cp <= 0xDFFF:
+                continue
+            c = chr(cp)
+            if c in "\n\r" or (cp < 128 and (c.isalnum() or c in ".:")):
+                continue
+            for an, t in probes:
+                if an is a6 and c == "%":
+                    continue   # a zone index follows '%'
+                for ln, want in ((c + t, c + images[t]), (t + c, images[t] + c), (c + t + c, c + images[t] + c)):
+                    res.evals += 1
+                    o = ipa.anonymize_ip_addr(an, ln)
+                    if o != want:
+                        n_bad += 1
+                        if n_bad <= 3:
+                            res.violation("address-next-to-a-character-not-replaced|%s" % ("v4" if an is a4 else "v6"),
+                                          "U+%04X: %r -> %r, expected %r" % (cp, ln, o, want), {"plane": case["plane"], "cp": cp})
+        res.states = hi - lo
+        res.nt(("plane", case["plane"]))
+        res.out(n_bad)
+        if "cp" not in case:
+            res.samples.append({"plane": case["plane"], "lines": res.evals})
+        return res
+
+
 def parts(tier, seed):
     return [FixedPoints(tier, seed), ZeroRuns(tier, seed), V4Tokens(tier, seed), V6Tokens(tier, seed), V6Tails(tier, seed), Contexts(tier, seed),
-            Boundary(tier, seed), LongLines(tier, seed), Columns(tier, seed), BothDirections(tier, seed), WithAsNumbers(tier, seed), NeighbourCharacters(tier, seed), SeparatorsEarlierOnTheLine(tier, seed)]
+            Boundary(tier, seed), LongLines(tier, seed), Columns(tier, seed), BothDirections(tier, seed), WithAsNumbers(tier, seed), NeighbourCharacters(tier, seed), SeparatorsEarlierOnTheLine(tier, seed), EveryCodePointAsNeighbour(tier, seed)]
